@@ -65,7 +65,7 @@ func scanFeaturesKey(sp *SymPath, keyAtom string) *scanFeat {
 			f.nameArgsOK = ef.Base == "L:tmp.tape" && a0 == "L:tmp.cur@A" && a1 == "L:tmp.tape.Tape[L:tmp.off@A]" && len(advs) == 1
 			nameAtom = ef.Val.String()
 		}
-		if ef.Kind == "call" && strings.HasPrefix(ef.Target, "var:") {
+		if ef.Kind == "call" && !ef.InCond && strings.HasPrefix(ef.Target, "var:") {
 			f.callbacks++
 			if !(len(ef.Args) == 2 && ef.Args[0].String() == nameAtom+".0" && ef.Args[1].String() == "L:tmp" && len(advs) == 2) {
 				f.cbArgsOK = false
